@@ -54,6 +54,9 @@ static void gen(uint64_t seed, const std::string &prop, Plan &plan) {
     p["dns_timeout_ds"] = r.chance(0.4) ? (int64_t)r.range(3, 30) : 0;   // tenths of a second, 0 = default (10 s)
     p["ctimeout_ds"] = r.chance(0.5) ? (int64_t)r.range(2, 40) : 0;      // tcp.connect_timeout, 0 = default (3 s)
     p["local_addr"] = r.chance(0.3) ? (r.chance(0.7) ? 1 : 2) : 0;      // 1: address with port 0, 2: address with a fixed port
+    if (p["local_addr"] && r.chance(0.3)) p["local_addr"] = r.chance(0.5) ? 3 : 4;   // 3: not an address of this host (EADDRNOTAVAIL), 4: address and port in use (EADDRINUSE)
+    if (p["local_addr"] == 1 && r.chance(0.3)) p["local_addr"] = 5;                  // 5: a host name (of this host, 1-3 addresses) as the local address
+    p["own_nips"] = (int64_t)r.range(1, 3);                                          // how many addresses this host's own name has (local address by name, xcm_server on a name)
     int n = r.chance(0.85) ? (int)r.range(1, 6) : (int)r.range(7, 40);
     int fam_bias = (int)r.below(3);   // 0 mixed, 1 mostly v4, 2 mostly v6
     for (int i = 0; i < n; i++) {
@@ -127,7 +130,9 @@ static void client_task(const Plan *pl) {
     if (DX->alg) xcm_attr_map_add_str(m, "dns.algorithm", ALGS[DX->alg]);
     if (pl->P("dns_timeout_ds")) xcm_attr_map_add_double(m, "dns.timeout", pl->P("dns_timeout_ds") / 10.0);
     if (pl->P("ctimeout_ds")) xcm_attr_map_add_double(m, "tcp.connect_timeout", pl->P("ctimeout_ds") / 10.0);
-    if (pl->P("local_addr")) xcm_attr_map_add_str(m, "xcm.local_addr", strf("%s:10.0.0.1:%d", DX->tp.c_str(), pl->P("local_addr") == 2 ? 7555 : 0).c_str());
+    int la = (int)pl->P("local_addr");
+    if (la == 5) xcm_attr_map_add_str(m, "xcm.local_addr", strf("%s:own.example:0", DX->tp.c_str()).c_str());
+    else if (la) xcm_attr_map_add_str(m, "xcm.local_addr", la == 3 ? strf("%s:10.9.9.9:0", DX->tp.c_str()).c_str() : strf("%s:10.0.0.1:%d", DX->tp.c_str(), la == 2 ? 7555 : la == 4 ? 7300 : 0).c_str());
     bool nb = pl->P("nb") != 0;
     bool got_greeting = false;
     DX->start_time = G->now;
@@ -221,11 +226,19 @@ static void setup(const Plan &plan) {
     da.after = plan.P("dns_after_ms", 1) * MS;
     da.mode = (int)plan.P("dns_mode");
     (*DNS)[DX->name] = da;
+    // this host's own name: 10.0.0.1 first, then further addresses of the host
+    static const char *own[] = {"10.0.0.1", "10.0.0.2", "127.0.0.1"};
+    int own_n = (int)std::max<int64_t>(1, std::min<int64_t>(3, plan.P("own_nips", 1)));
+    DnsAnswer oa;
+    oa.ips.assign(own, own + own_n);
+    oa.after = 1 * MS;
+    oa.mode = 0;
+    (*DNS)["own.example"] = oa;
     const Plan *pl = &G->plan;
     if (plan.P("mode") == 1) {
         // for the server case the name resolves to a local address (when it resolves at all)
         DnsAnswer sa = da;
-        sa.ips = {"127.0.0.1"};
+        sa.ips.assign(own, own + own_n);
         (*DNS)[DX->name] = sa;
         DX->answer = sa.ips;
         G->spawn("app", [pl] { server_on_name_task(pl); }, 1, 0);
@@ -286,6 +299,15 @@ static void finalize(const Plan &plan, EndReason r) {
         model_connects = c4 || c6;
         if (model_connects) ok_errnos.clear();
         bound += 0.2;
+    }
+    if (resolved && (plan.P("local_addr") == 3 || plan.P("local_addr") == 4)) {
+        // a source address the kernel refuses to bind: no attempt can be made from it, to whichever address
+        model_connects = false;
+        ok_peers.clear();
+        ok_errnos.clear();
+        ok_errnos.insert(plan.P("local_addr") == 3 ? EADDRNOTAVAIL : EADDRINUSE);
+        for (auto &tr : legal_tracks) tr.clear();
+        bound = t_dns + 0.2;
     }
     bound += 0.06 + 0.002 * (double)L.size();   // scheduling quanta, the acceptor's 50 ms tick, the TLS handshake on top of TCP
     if (DX->tp == "tls" || DX->tp == "btls" || DX->tp == "utls") bound += 0.5;
